@@ -105,6 +105,14 @@ theorem fin_after_fsync_checker_sound (tr pre mid post : List Nsq.Model.ToFileTr
     (hs : tr = pre ++ .write f :: mid ++ .fin id :: post) : .fsync f ∈ mid :=
   Nsq.Proofs.ToFileTrace.checkTrace_sound tr pre mid post f id h hs
 
+/-- **Syscall leg, end to end.** For the real binary (FIN commands are written to the socket by
+go-nsq's write loop, asynchronously) the per-message checker is sound: in a trace it accepts, before
+every `FIN id` the record of message `id` was written to a file and that file was fsynced after it. -/
+theorem fin_after_fsync_msg_checker_sound (tr pre post : List Nsq.Model.ToFileTrace.MSys) (id : Nat)
+    (h : Nsq.Model.ToFileTrace.checkMsgTrace tr = true) (hs : tr = pre ++ .fin id :: post) :
+    ∃ a1 a2 a3 f, pre = a1 ++ .wmsg f id :: a2 ++ .fsync f :: a3 :=
+  Nsq.Proofs.ToFileTrace.checkMsgTrace_sound tr pre post id h hs
+
 /-! ### non-vacuity -/
 
 def cfgPlain : Cfg := ⟨false, 0, 0, false, false, 2, true⟩
